@@ -274,6 +274,18 @@ func runC02(r *vk.Run) {
 			fc.Plan.Chunk = -1
 			fc.Plan.Seed = uint64(c.Idx)
 		}
+		if c.Idx%3 == 1 {
+			// the process has seen the selector's texts before, in other roles: as the pattern of a line filter
+			// (unanchored there), of a label filter, as a plain string. A selector matcher is anchored whatever
+			// was parsed earlier
+			for _, m := range ms {
+				v := quoteLogQL(m.Value)
+				for _, prior := range []string{`{warmup="x"} |~ ` + v, `{warmup="x"} !~ ` + v, `{warmup="x"} | lbl=~` + v, `{warmup="x"} |= ` + v} {
+					_, _ = logql.Parse(prior, logql.ParseOptions{})
+				}
+			}
+			c.Count("selectors_after_other_uses_of_their_texts", 1)
+		}
 		res, err := evalQuery(dockerQuerier(fd), query, p)
 		c.Eval(1)
 		c.Count("matchers", len(ms))
